@@ -3,7 +3,7 @@
 1. TLC checks the implementation-shaped models Debouncer.tla (explicit waiter set: a notify with no waiter is
    lost; virtual clock; liveness C18_ThreadExits), AutoRestart.tla (process table, the two flags, the watcher
    and debouncer threads, stop()) and ShellCommand.tla -- in the configuration that carries the proposed repairs
-   (FixD8, FixLock) every C18_* property holds; the negative configurations (the code as it is) must be refuted.
+   (FixD8, FixLock) every C18_* property holds; the negative configurations (the code as it was before the two fix: commits) must be refuted.
 2. code -> spec: the REAL EventDebouncer / AutoRestartTrick / ShellCommandTrick run under the deterministic
    scheduler (virtual clock, simulated process table): bounded-preemption DFS over families of short programs plus
    seeded random / PCT schedules over random programs.  TLC validates every black-box trace against
@@ -247,7 +247,7 @@ def _tlc_design(c, jobs):
         else:
             if expect not in r.violated and f"property {expect} was violated" not in r.output:
                 c.machinery_failure(f"vacuity: {cfg} did not violate {expect}: {r.violated} {r.errors[:2]}")
-            c.note(f"TLC {cfg} (negative: the code as it is): {expect} refuted as expected, {r.distinct} states, {r.wall:.1f}s")
+            c.note(f"TLC {cfg} (negative: defect switched back on): {expect} refuted as expected, {r.distinct} states, {r.wall:.1f}s")
 
 
 def run(c: checklib.Check):
@@ -383,7 +383,7 @@ def run(c: checklib.Check):
     if nviol:
         c.note("failing clauses by signature: " + ", ".join(f"{k} x{n}" for k, n in sorted(nviol.items())))
 
-    # the defects TLC finds in the models of the code as it is (negative configurations), against the real code
+    # the defects TLC finds with the switches off (negative configurations), against the real code
     seen = {}
     for sig, n in nviol.items():
         base = sig.split(":", 1)[1] if sig.startswith("D8:") else sig.split("@")[0]
@@ -393,7 +393,7 @@ def run(c: checklib.Check):
              ("AutoRestart[FixLock=FALSE] C18_AtMostOneChild", "P_C18_AtMostOneChild"),
              ("AutoRestart[FixLock=FALSE] C18_NothingAfterStop/C18_NoSpawnAfterStop", "P_C18_NothingAfterStop"),
              ("AutoRestart[FixLock=FALSE] C18_HelpersGone", "P_C18_HelpersGone")]
-    c.note("model of the code as it is (refuted by TLC) vs the real code under the scheduler: " +
+    c.note("model with the defect switches off (refuted by TLC) vs the real code under the scheduler: " +
            "; ".join(f"{m} -> {q} fails on {seen.get(q, 0)} real traces" for m, q in pairs) +
            " (0 everywhere = the tree under test carries the repairs)")
 
